@@ -2,6 +2,7 @@
 package core
 
 import (
+	"golang.org/x/tools/go/ast/astutil"
 	"fmt"
 	"go/ast"
 	"go/constant"
@@ -72,6 +73,7 @@ func Load(repo string) (*Prog, error) {
 	// are built
 	for _, pk := range pkgs {
 		if strings.HasPrefix(pk.PkgPath, ModPath) && pk.TypesInfo != nil {
+			specialiseConstParams(pk.TypesInfo, pk.Syntax)
 			pruneConstIfs(pk.TypesInfo, pk.Syntax)
 		}
 	}
@@ -383,6 +385,202 @@ func (p *Prog) TypesInfo(f *ssa.Function) *types.Info {
 }
 
 
+// specialiseConstParams: an unexported function or method that is only ever called (never used as a value) and whose
+// parameter i receives the same constant at every call site - `sortWith(fn, xs, true)`, the general form behind an
+// exported entry point - behaves, in this program, as if that parameter were the constant. Every read of such a
+// parameter in the body is replaced (in the syntax, before the SSA form is built) by the constant expression of a call
+// site, so that the branches it selects become constant conditions (removed by pruneConstIfs). Parameters that the
+// body assigns or takes the address of are left alone.
+func specialiseConstParams(info *types.Info, files []*ast.File) {
+	decls := map[*types.Func]*ast.FuncDecl{}
+	for _, f := range files {
+		for _, d := range f.Decls {
+			if fd, ok := d.(*ast.FuncDecl); ok && fd.Body != nil {
+				if fo, isF := info.Defs[fd.Name].(*types.Func); isF && !fo.Exported() {
+					decls[fo] = fd
+				}
+			}
+		}
+	}
+	if len(decls) == 0 {
+		return
+	}
+	calleeOf := func(fun ast.Expr) (*types.Func, *ast.Ident) {
+		for {
+			switch x := fun.(type) {
+			case *ast.ParenExpr:
+				fun = x.X
+				continue
+			case *ast.IndexExpr:
+				fun = x.X
+				continue
+			case *ast.IndexListExpr:
+				fun = x.X
+				continue
+			}
+			break
+		}
+		var id *ast.Ident
+		switch x := fun.(type) {
+		case *ast.Ident:
+			id = x
+		case *ast.SelectorExpr:
+			id = x.Sel
+		}
+		if id == nil {
+			return nil, nil
+		}
+		fo, _ := info.Uses[id].(*types.Func)
+		if fo != nil {
+			fo = fo.Origin()
+		}
+		return fo, id
+	}
+	sites := map[*types.Func][]*ast.CallExpr{}
+	inCall := map[*ast.Ident]bool{}
+	for _, f := range files {
+		ast.Inspect(f, func(n ast.Node) bool {
+			if call, ok := n.(*ast.CallExpr); ok {
+				if fo, id := calleeOf(call.Fun); fo != nil && decls[fo] != nil {
+					sites[fo] = append(sites[fo], call)
+					inCall[id] = true
+				}
+			}
+			return true
+		})
+	}
+	// a use outside call position (method value, function value) means unknown callers
+	escapes := map[*types.Func]bool{}
+	for id, obj := range info.Uses {
+		if fo, ok := obj.(*types.Func); ok && decls[fo.Origin()] != nil && !inCall[id] {
+			escapes[fo.Origin()] = true
+		}
+	}
+	for fo, fd := range decls {
+		calls := sites[fo]
+		if len(calls) == 0 || escapes[fo] {
+			continue
+		}
+		sig, _ := fo.Type().(*types.Signature)
+		if sig == nil || sig.Variadic() {
+			continue
+		}
+		var params []*ast.Ident
+		for _, fl := range fd.Type.Params.List {
+			params = append(params, fl.Names...)
+		}
+		for i, prm := range params {
+			pobj := info.Defs[prm]
+			if pobj == nil || prm.Name == "_" {
+				continue
+			}
+			var val constant.Value
+			same := true
+			for _, call := range calls {
+				if i >= len(call.Args) || len(call.Args) != len(params) {
+					same = false
+					break
+				}
+				tv, ok := info.Types[call.Args[i]]
+				if !ok || tv.Value == nil {
+					same = false
+					break
+				}
+				if val == nil {
+					val = tv.Value
+				} else if val.Kind() != tv.Value.Kind() || !constant.Compare(val, token.EQL, tv.Value) {
+					same = false
+					break
+				}
+			}
+			if !same || val == nil {
+				continue
+			}
+			// not assigned, not addressed, not captured for writing
+			written := false
+			ast.Inspect(fd.Body, func(n ast.Node) bool {
+				switch x := n.(type) {
+				case *ast.AssignStmt:
+					for _, l := range x.Lhs {
+						if id, ok := l.(*ast.Ident); ok && info.Uses[id] == pobj {
+							written = true
+						}
+					}
+				case *ast.IncDecStmt:
+					if id, ok := x.X.(*ast.Ident); ok && info.Uses[id] == pobj {
+						written = true
+					}
+				case *ast.UnaryExpr:
+					if id, ok := x.X.(*ast.Ident); ok && x.Op == token.AND && info.Uses[id] == pobj {
+						written = true
+					}
+				}
+				return true
+			})
+			if written {
+				continue
+			}
+			repl := calls[0].Args[i]
+			astutil.Apply(fd.Body, func(c *astutil.Cursor) bool {
+				if id, ok := c.Node().(*ast.Ident); ok && info.Uses[id] == pobj {
+					// only in expression position (not a field name / key of a composite literal for a struct, which Uses would not map to the parameter anyway)
+					if _, isExpr := c.Parent().(ast.Node); isExpr {
+						c.Replace(repl)
+					}
+				}
+				return true
+			}, nil)
+		}
+	}
+}
+
+// constCond evaluates a boolean condition that is constant once constant operands are known: literals and constants
+// recorded by the type checker, combined with !, &&, ||, == and != .
+func constCond(info *types.Info, e ast.Expr) (bool, bool) {
+	if tv, ok := info.Types[e]; ok && tv.Value != nil && tv.Value.Kind() == constant.Bool {
+		return constant.BoolVal(tv.Value), true
+	}
+	switch x := e.(type) {
+	case *ast.ParenExpr:
+		return constCond(info, x.X)
+	case *ast.UnaryExpr:
+		if x.Op == token.NOT {
+			if v, ok := constCond(info, x.X); ok {
+				return !v, true
+			}
+		}
+	case *ast.BinaryExpr:
+		switch x.Op {
+		case token.LAND, token.LOR:
+			a, okA := constCond(info, x.X)
+			b, okB := constCond(info, x.Y)
+			if x.Op == token.LAND {
+				if okA && !a || okB && !b && okA {
+					return false, true
+				}
+				if okA && okB {
+					return a && b, true
+				}
+			} else {
+				if okA && a {
+					return true, true
+				}
+				if okA && okB {
+					return a || b, true
+				}
+			}
+		case token.EQL, token.NEQ:
+			ta, okA := info.Types[x.X]
+			tb, okB := info.Types[x.Y]
+			if okA && okB && ta.Value != nil && tb.Value != nil && ta.Value.Kind() == tb.Value.Kind() {
+				eq := constant.Compare(ta.Value, token.EQL, tb.Value)
+				return eq == (x.Op == token.EQL), true
+			}
+		}
+	}
+	return false, false
+}
+
 // pruneConstIfs replaces every `if c { A } else { B }` whose condition is a boolean constant by its live branch.
 func pruneConstIfs(info *types.Info, files []*ast.File) {
 	var simplify func(s ast.Stmt) ast.Stmt
@@ -392,12 +590,12 @@ func pruneConstIfs(info *types.Info, files []*ast.File) {
 			if !ok || ifs.Init != nil {
 				return s
 			}
-			tv, ok := info.Types[ifs.Cond]
-			if !ok || tv.Value == nil || tv.Value.Kind() != constant.Bool {
+			cv, ok := constCond(info, ifs.Cond)
+			if !ok {
 				return s
 			}
 			switch {
-			case constant.BoolVal(tv.Value):
+			case cv:
 				s = ifs.Body
 			case ifs.Else != nil:
 				s = ifs.Else
